@@ -9,6 +9,7 @@ from __future__ import annotations
 import ast
 import dataclasses
 import importlib
+import os
 import sys
 import time
 import traceback
@@ -381,6 +382,8 @@ def verify(c: Contract, call: Callable[[Dict[str, Any], Dict[str, Any]], Any],
     def record(o):
         nonlocal vcs
         vcs += 1
+        if os.environ.get("VFW_TRACE"):
+            print(f"    [trace] {o['name']} {o['status']} {o['backend']} {o['s']:.2f}s", file=sys.stderr)
         d = obls.setdefault(o["name"], {"status": "discharged", "vcs": 0, "seconds": 0.0, "detail": o.get("detail", ""), "backends": set()})
         d["vcs"] += 1
         d["seconds"] += o["s"]
